@@ -90,7 +90,7 @@ def nsAgree (Γ : Ctx) (m : XmlMeta) (q : QN) : Bool :=
     | none => true
     | some c => decide ((metaOf Γ c (targetUri q)).map dropQ = (metaOf Γ c (targetUri m.qname)).map dropQ)
 
-def elemVarOK (Γ : Ctx) (m : XmlMeta) (ci : ClassInfo) (v : XmlVar) : Bool :=
+def elemVarOK (ns : Bool) (Γ : Ctx) (m : XmlMeta) (ci : ClassInfo) (v : XmlVar) : Bool :=
   v.isElement && varBase v && decide (1 ≤ v.index) &&
   decide (m.elements.find? (·.1 = v.qname) = some (v.qname, [v])) &&
   (match v.clazz, v.types with
@@ -100,28 +100,30 @@ def elemVarOK (Γ : Ctx) (m : XmlMeta) (ci : ClassInfo) (v : XmlVar) : Bool :=
      decide (c = c') &&
      (if v.listElement then decide (v.default = .listFactory) else decide (v.default = .none)) &&
      (match metaOf Γ c (targetUri m.qname) with
-      | some m' => nsAgree Γ m' v.qname
+      | some m' => !ns || nsAgree Γ m' v.qname
       | none => false)
    | _, _ => false) &&
   fieldAgrees ci v
 
-/-- one exported `XmlMeta` of class `ci` -/
-def metaF1 (Γ : Ctx) (ci : ClassInfo) (m : XmlMeta) : Bool :=
+/-- one exported `XmlMeta` of class `ci` (`ns = false` drops the `nsAgree` requirement) -/
+def metaF1 (ns : Bool) (Γ : Ctx) (ci : ClassInfo) (m : XmlMeta) : Bool :=
   decide (m.clazz = ci.id) && !m.nillable && !m.qname.isEmpty &&
   m.wildcards.isEmpty && m.choices.isEmpty && m.anyAttributes.isEmpty && m.wrappers.isEmpty &&
   m.attributeVars.all (attrVarOK m ci) &&
   decide ((m.attributeVars.map (·.qname)).Nodup) &&
   (match m.text with
-   | none => m.elementVars.all (elemVarOK Γ m ci)
+   | none => m.elementVars.all (elemVarOK ns Γ m ci)
    | some tv => decide (m.elementVars = [tv]) && textVarOK ci tv) &&
   decide ((m.elementVars.map (·.index)).Nodup) &&
   decide (((m.attributeVars ++ m.elementVars).map (·.name)).Nodup) &&
   decide ((ci.fields.map (·.name)).Nodup) &&
   ci.fields.all (fun f => (m.attributeVars ++ m.elementVars).any (·.name = f.name))
 
+def ctxF1G (ns : Bool) (Γ : Ctx) : Bool :=
+  Γ.classes.all fun ci => !ci.metas.isEmpty && ci.metas.all (fun pm => metaF1 ns Γ ci pm.2)
+
 /-- the universe is in fragment F1 -/
-def ctxF1 (Γ : Ctx) : Bool :=
-  Γ.classes.all fun ci => !ci.metas.isEmpty && ci.metas.all (fun pm => metaF1 Γ ci pm.2)
+def ctxF1 (Γ : Ctx) : Bool := ctxF1G true Γ
 
 /-! ### values -/
 
@@ -141,21 +143,21 @@ def attrStrOK (Γ : Ctx) : PVal → Bool
   | .str s => !(s.head? = some '{' && isDatatype Γ s)
   | _ => true
 
-def attrValOK (Γ : Ctx) (ci : ClassInfo) (var : XmlVar) (x : Val) : Bool :=
+def attrValOK (strict : Bool) (Γ : Ctx) (ci : ClassInfo) (var : XmlVar) (x : Val) : Bool :=
   match var.types with
   | [.prim t] =>
     (match x with
      | .none => fdNone ci var.name
-     | .prim p => primHasType p t && attrStrOK Γ p
+     | .prim p => primHasType p t && (!strict || attrStrOK Γ p)
      | _ => false)
   | _ => false
 
-def textValOK (ci : ClassInfo) (var : XmlVar) (x : Val) : Bool :=
+def textValOK (strict : Bool) (ci : ClassInfo) (var : XmlVar) (x : Val) : Bool :=
   match var.types with
   | [.prim t] =>
     (match x with
      | .none => fdNone ci var.name
-     | .prim p => primHasType p t && (decide (p ≠ .str []) || fdEmptyStr ci var.name)
+     | .prim p => primHasType p t && (!strict || decide (p ≠ .str []) || fdEmptyStr ci var.name)
      | _ => false)
   | _ => false
 
@@ -163,7 +165,8 @@ def textValOK (ci : ClassInfo) (var : XmlVar) (x : Val) : Bool :=
 def emptyStrOK (var : XmlVar) (p : PVal) : Bool :=
   decide (p ≠ .str []) || decide (var.default = .none) || decide (var.default = .val (.str []))
 
-def elemValOK (ci : ClassInfo) (var : XmlVar) (rec : ClassId → Val → Bool) (x : Val) : Bool :=
+def elemValOK (strict : Bool) (ci : ClassInfo) (var : XmlVar) (rec : ClassId → Val → Bool) (x : Val) :
+    Bool :=
   match var.clazz, var.types with
   | none, [.prim t] =>
     if var.listElement then
@@ -173,7 +176,7 @@ def elemValOK (ci : ClassInfo) (var : XmlVar) (rec : ClassId → Val → Bool) (
     else
       (match x with
        | .none => fdNone ci var.name
-       | .prim p => primHasType p t && emptyStrOK var p
+       | .prim p => primHasType p t && (!strict || emptyStrOK var p)
        | _ => false)
   | some c, _ =>
     if var.listElement then
@@ -192,9 +195,11 @@ def look (fields : List (Str × Val)) (name : Str) : Val :=
   | some (_, x) => x
   | none => .none
 
-/-- `v` is an instance of class `c` (metadata built under `pns`) inside the fragment;
-the first argument bounds the nesting depth -/
-def valObjN (Γ : Ctx) : Nat → Option Str → ClassId → Val → Bool
+/-- `v` is an instance of class `c` (metadata built under `pns`): every field holds a value of
+its type, `None` only where the dataclass default is `None`; with `strict` the value also avoids
+the three regions that do not survive the round trip (`attrStrOK`, `emptyStrOK`, empty text).
+The `Nat` argument bounds the nesting depth. -/
+def valObjG (strict : Bool) (Γ : Ctx) : Nat → Option Str → ClassId → Val → Bool
   | 0, _, _, _ => false
   | n + 1, pns, c, .obj cls fields =>
     decide (cls = c) &&
@@ -205,14 +210,20 @@ def valObjN (Γ : Ctx) : Nat → Option Str → ClassId → Val → Bool
        | none => false
        | some m =>
          decide (fields.map (·.1) = ci.fields.map (·.name)) &&
-         m.attributeVars.all (fun var => attrValOK Γ ci var (look fields var.name)) &&
+         m.attributeVars.all (fun var => attrValOK strict Γ ci var (look fields var.name)) &&
          (match m.text with
-          | some tv => textValOK ci tv (look fields tv.name)
+          | some tv => textValOK strict ci tv (look fields tv.name)
           | none => m.elementVars.all (fun var =>
-              elemValOK ci var (valObjN Γ n (targetUri m.qname)) (look fields var.name))))
+              elemValOK strict ci var (valObjG strict Γ n (targetUri m.qname)) (look fields var.name))))
   | _ + 1, _, _, _ => false
+
+/-- instance of class `c` inside the fragment -/
+def valObjN (Γ : Ctx) : Nat → Option Str → ClassId → Val → Bool := valObjG true Γ
 
 /-- the value-level side of fragment F1 (`v.size` bounds the nesting depth of `v`) -/
 def valF1 (_e : BEnv) (Γ : Ctx) (c : ClassId) (v : Val) : Bool := valObjN Γ v.size none c v
+
+/-- `v` is a type-correct instance of class `c` (no value-level exclusion) -/
+def instF1 (Γ : Ctx) (c : ClassId) (v : Val) : Bool := valObjG false Γ v.size none c v
 
 end Xs.Bind.F1
